@@ -146,6 +146,8 @@ def coerce(v, ty):
         return Val(ty, parts)
     if ty.kind == "opaque" and v.parts:
         return to_opaque(v)
+    if ty.kind == "opaque" and v.ty.kind == "none":
+        return opaque_const("None")
     if ty.kind == "opaque" and v.ty.kind == "empty":
         return opaque_const("empty:" + v.ty.name)
     if ty.kind == "name" and v.ty.kind == "opaque":
